@@ -31,6 +31,9 @@ def case_strategy(profile):
         ops.append(st.fixed_dictionaries({"t": tm, "who": who, "op": st.just("reset"), "stream": st.integers(0, 5)}))
         ops.append(st.fixed_dictionaries({"t": tm, "who": who, "op": st.just("stop"), "stream": st.integers(0, 5)}))
     ops.append(st.fixed_dictionaries({"t": tm, "who": who, "op": st.just("ping")}))
+    if profile.get("early"):
+        # written by the client before the handshake completes: 0-RTT data on a resumed connection, queued otherwise
+        ops.append(st.fixed_dictionaries({"t": st.sampled_from([0.0, 0.0, 0.001, 0.02]), "who": st.just("c"), "op": st.just("write"), "stream": st.sampled_from(["bidi", "uni", 0]), "n": sizes, "fin": st.booleans(), "early": st.just(True)}))
     if profile.get("key_update", True):
         ops.append(st.fixed_dictionaries({"t": tm, "who": who, "op": st.just("key_update")}))
     if profile.get("change_cid", True):
@@ -80,7 +83,7 @@ def case_strategy(profile):
         extra = {"leaf": st.sampled_from(["ed25519", "p256", "rsa", "chain2", "chain3", "chain3"]), "retry": st.sampled_from([False, False, True]), "mute_client_after": st.sampled_from([None, None, 1, 1, 2, 3])}
     elif profile.get("cfg_extra_fn") == "c08":
         # the client may have to start over: Retry, or Version Negotiation with a server that does not speak the version it started with
-        extra = {"retry": st.sampled_from([False, False, True]), "server_versions": st.sampled_from([[V1, V2], [V2, V1], [V1], [V2]])}
+        extra = {"retry": st.sampled_from([False, False, True]), "server_versions": st.sampled_from([[V1, V2], [V2, V1], [V1], [V2]]), "resume": st.sampled_from([False, False, True])}
     if profile.get("c_keylog"):
         extra = dict(extra or {}, c_keylog=st.just(True))
     if profile.get("jitter0"):
@@ -603,6 +606,35 @@ class C13Monitor(Monitor):
                                 self.validated.add(a2)
 
 
+class C02EmitMonitor(Monitor):
+    """every long- or short-header packet either endpoint emits opens for the independent implementation with the keys its header selects:
+    Initial keys of the version in the header, handshake / 0-RTT / 1-RTT keys from the key logs, the key generation its Key Phase bit names"""
+
+    def start(self, sim):
+        self.nontrivial = False
+        self.n = 0
+        self.versions = set()
+
+    def on_datagram_out(self, sim, x, data, addr, now):
+        for v in sim.wire.last(x):
+            if v.ptype not in (R.PT_INITIAL, R.PT_HANDSHAKE, R.PT_ZERO_RTT, R.PT_ONE_RTT):
+                continue
+            self.n += 1
+            if v.info is not None and v.info.version:
+                self.versions.add(v.info.version)
+            if v.frames is None:
+                sim.violation(
+                    "emitted-packet-not-opened-by-reference",
+                    "%s emitted a %d-byte %s packet (header version %s) at t=%.4f that the reference implementation cannot open with the keys the header selects" % (x, v.size, v.ptype, hex(v.info.version) if v.info is not None and v.info.version else "-", now),
+                )
+                raise simnet.SimStop()
+            if v.ptype == R.PT_ONE_RTT and v.key_gen is not None and v.key_phase != (v.key_gen & 1):
+                sim.violation("key-phase-bit-does-not-match-keys", "%s emitted 1-RTT packet %d protected with key generation %d carrying Key Phase bit %d" % (x, v.pn, v.key_gen, v.key_phase))
+                raise simnet.SimStop()
+        if len(self.versions) > 1 or sim.stats["op:key_update"] or sim.stats["retry-sent"] or sim.stats["resume:ticket"]:
+            self.nontrivial = True
+
+
 class C08WireMonitor(Monitor):
     """in-flight bytes put on the wire by one datagrams_to_send call <= window left (+ one probe datagram)."""
 
@@ -661,7 +693,8 @@ PROFILES = {
     "C09": {"c_keylog": True, "adv_end": 3.0, "fair": 12.0, "rebind": False, "dup": True, "close": True, "cfg_extra_fn": "c09"},
     "C12": {"c_keylog": True, "adv_end": 3.0, "fair": 5.0, "rebind": False, "dup": True, "key_update": False, "change_cid": True, "jitter0": True},
     "C13": {"c_keylog": True, "adv_end": 3.0, "fair": 6.0, "rebind": True, "dup": True, "cfg_extra_fn": "c13", "mds": [1200, 1280, 1350, 1452]},
-    "C08": {"c_keylog": True, "adv_end": 3.0, "fair": 8.0, "rebind": False, "dup": True, "big": True, "key_update": False, "cfg_extra_fn": "c08"},
+    "C02": {"c_keylog": True, "adv_end": 2.0, "fair": 4.0, "rebind": True, "dup": True, "cfg_extra_fn": "c08", "early": True, "max_ops": 6, "max_fates": 60},
+    "C08": {"c_keylog": True, "adv_end": 3.0, "fair": 8.0, "rebind": False, "dup": True, "big": True, "key_update": False, "cfg_extra_fn": "c08", "early": True},
 }
 
 
@@ -673,7 +706,7 @@ def run_case(ctx, prop, case, observe=False):
 
 
 def needs_wire(prop):
-    return prop in ("C08", "C09", "C12", "C13")
+    return prop in ("C02", "C08", "C09", "C12", "C13")
 
 
 def monitors_for(prop):
@@ -687,6 +720,8 @@ def monitors_for(prop):
         return [C13Monitor()]
     if prop == "C08":
         return [C08WireMonitor()]
+    if prop == "C02":
+        return [C02EmitMonitor()]
     raise KeyError(prop)
 
 
@@ -790,6 +825,9 @@ def plan_for(prop, tier, seed):
     if prop == "C13":
         for s in range(2 if q else 4):
             t.append(("sim-c13-migration-%d" % s, {"fn": "sim", "profile": "C13-migration", "examples": 60 if q else 3000, "shard": s}))
+    if prop == "C02":
+        for s in range(4):
+            t.append(("sim-emit-%d" % s, {"fn": "sim", "profile": "C02", "examples": 80 if q else 4000, "shard": s}))
     if prop == "C08":
         for s in range(6 if q else 8):
             t.append(("wire-c08-%d" % s, {"fn": "sim", "profile": "C08", "examples": 100 if q else 2500, "shard": s}))
